@@ -93,3 +93,9 @@ func VerifBucketIndex(root, id int160.T) int {
 func VerifRandomIdInBucket(root int160.T, bucketIndex int) int160.T {
 	return randomIdInBucket(root, bucketIndex)
 }
+
+// VerifRefreshBucket runs one bucket refresh exactly as TableMaintainer does (exported alias of the
+// unexported refreshBucket), so that the schedule explorer can race it with other activity.
+func (s *Server) VerifRefreshBucket(i int) {
+	s.refreshBucket(i)
+}
